@@ -29,18 +29,18 @@ import (
 )
 
 type Clause struct {
-	Kind   string   // requires, ensures, invariant, let, modifies, assert
-	Labels []string // property ids
-	Name   string
-	Text   string
-	Expr   ast.Expr
-	Loop   int
-	Walk   bool
-	LetVar string
+	Kind    string   // requires, ensures, invariant, let, modifies, assert
+	Labels  []string // property ids
+	Name    string
+	Text    string
+	Expr    ast.Expr
+	Loop    int
+	Walk    bool
+	LetVar  string
 	Group   string // {name}: the clause is proved from, and visible to, only clauses of the same group plus the ungrouped ones
-	Assumed bool // trusted-ensures: assumed at call sites, not checked against the body (listed in the evidence)
-	File   string
-	Line   int
+	Assumed bool   // trusted-ensures: assumed at call sites, not checked against the body (listed in the evidence)
+	File    string
+	Line    int
 }
 
 type Contract struct {
